@@ -117,8 +117,8 @@ func byteLane(v ssa.Value) (ssa.Value, int, bool) {
 		}
 	}
 	if b, ok := v.(*ssa.BinOp); ok && b.Op == token.SHR {
-		if c, ok := constInt(b.Y); ok && c%8 == 0 && c >= 0 && c <= 24 {
-			if masked || c == 24 || narrowed8(v) {
+		if c, ok := constInt(b.Y); ok && c%8 == 0 && c >= 0 && c <= 56 {
+			if masked || (c == 24 && isU32(b.X.Type())) || narrowed8(v) {
 				return b.X, int(c / 8), true
 			}
 		}
